@@ -410,8 +410,15 @@ uint8_t *
 rm_edit_encode(const rm_edit_t *e, size_t *n) {
   rm_out_t o;
   size_t i;
+  size_t est = 64 + e->comparator.n;
   memset(&o, 0, sizeof(o));
-  rm_out_need(&o, 1);
+  /* one allocation of the right order of magnitude instead of repeated doubling */
+  for (i = 0; i < e->ncptrs; i++)
+    est += 12 + e->cptrs[i].key.n;
+  est += 16 * e->ndels;
+  for (i = 0; i < e->nnews; i++)
+    est += 36 + e->news[i].smallest.n + e->news[i].largest.n;
+  rm_out_need(&o, est);
   if (e->has_comparator) {
     rm_out_v64(&o, 1);
     rm_out_lps(&o, &e->comparator);
